@@ -109,6 +109,8 @@ def _verify_instance(eng: Engine, c: Contract, src: source.FuncSrc, prop: str, i
 		st.env[name] = v
 		fn.want.append(str(v.term))
 		fn.inputs[str(v.term)] = ty
+	for k, v in c.consts.items():
+		st.env[k] = py_to_val(v)
 	for g, t in c.ghost_params.items():
 		gt = eng.tenv.parse(t)
 		v = eng.fresh(gt, g)  # type: ignore[arg-type]
